@@ -186,7 +186,12 @@ Section Handle.
                 let (r, st') := engine rq id st in
                 ({| out := match r with
                            | EResp enc max ver => reply g rq enc ver max
-                           | EKmipErr reason msg => reply g rq (err_response (rq_version rq) (now g) reason msg) (rq_version rq) None
+                           | EKmipErr reason msg =>
+                               (* build_error_response(..., str(e)) runs inside the `except KmipError` clause:
+                                  ResultMessage(text) raises for a text that cannot be UTF-8 encoded *)
+                               if text_ok msg
+                               then reply g rq (err_response (rq_version rq) (now g) reason msg) (rq_version rq) None
+                               else Escaped
                            | ECrash => reply g rq (err_response (rq_version rq) (now g) R_GENERAL_FAILURE MSG_GENERAL)
                                               (rq_version rq) None
                            end;
